@@ -52,7 +52,9 @@ def _vm_vis(evs):
     for e in evs:
         if e[0] == "J":
             continue
-        if e[0] == "G":
+        if e[0] == "E":
+            out.append("VX")
+        elif e[0] == "G":
             out.append("VG %s%%nat" % e[1:])
         else:
             t, f = e[1:].split(":")
@@ -84,6 +86,9 @@ def _vm_goal(case, out):
             return "remove_empty %s %s%%nat = %s" % (_vm_descs(p[2]), p[1], _vm_descs(o[1]))
         if p[0] == "F":
             return "filter_referrers %s %s = %s" % (_vm_descs(p[2]), p[1], _vm_descs(o[1]))
+        if p[0] == "L":
+            r = "None" if p[2] == "none" else "(Some %s)" % _vm_descs(p[2])
+            return "map dkey (list_referrers %s %s) = %s" % (r, p[1], _vm_ns(o[1]))
         if p[0] == "T":
             ds = ["(mkSubj %s %s %s)" % (x.split(":")[1], x.split(":")[0], x.split(":")[2]) for x in p[1].split(",")]
             return "tag_classes %s = %s" % (_vm_lst(ds, "subject"), _vm_nats(o[1]))
@@ -102,17 +107,19 @@ def _vm_goal(case, out):
                 return call + " = None"
             # ACC B <b> R <r> I <i>
             b = [] if o[2] == "-" else ["(%s%%nat, %s)" % (x.split(":")[0], _vm_nats(x.split(":")[1])) for x in o[2].split(";")]
-            return ("match %s with Some (rs, _, log) => (rs, batches log) = (%s, %s) | None => False end"
+            return ("match %s with Some (rs, _, log, _) => (rs, batches log) = (%s, %s) | None => False end"
                     % (call, _vm_results(o[4]), _vm_lst(b, "(nat * list nat)")))
         if p[0] == "X":
+            if "*" in out or out.startswith("UNJUDGED"):
+                return None
             r0 = "None" if p[2] == "none" else "(Some %s)" % _vm_lst([] if p[2] == "-" else ["(mkDesc %s 0 0)" % k for k in p[2].split(",")], "desc")
-            call = "vis_summary %s %s %s %s" % ("true" if p[1] == "1" else "false", r0, _vm_changes(p[3]), _vm_vis(p[4:]))
+            call = "vis_summary %s %s %s %s" % ("true" if p[1][0] == "1" else "false", r0, _vm_changes(p[3]), _vm_vis(p[4:]))
             if o[0] == "REJECT":
                 return call + " = None"
             # ACC R <r> I <i> U <u>
             idx = "None" if o[4] == "none" else "(Some %s)" % _vm_ns(o[4])
             us = [] if o[6] == "-" else [_vm_ns("" if x == "e" else x) for x in o[6].split(";")]
-            return ("match %s with Some (rs, idx, log) => (rs, idx, puts log) = (%s, %s, %s) | None => False end"
+            return ("match %s with Some (rs, idx, log, _) => (rs, idx, puts log) = (%s, %s, %s) | None => False end"
                     % (call, _vm_results(o[2]), idx, _vm_lst(us, "(list N)")))
     except Exception:
         return None
@@ -128,7 +135,7 @@ def _c14_vm_sample(d, tier, coq, build, want=300):
         for l in f:
             i, _, o = l.rstrip("\n").partition(" ")
             outs[i] = o
-    quota = {"A": 90, "R": 20, "F": 20, "T": 20, "K": 10, "D": 20, "M": 70, "X": 70}
+    quota = {"A": 90, "R": 20, "F": 20, "T": 20, "K": 10, "D": 20, "M": 70, "X": 70, "L": 20}
     total = collections.Counter()
     with open(os.path.join(d, "cases.txt")) as f:
         for l in f:
@@ -183,13 +190,15 @@ CONFIG = {
     "assumptions": [
         "a descriptor is abstracted to its key (descriptor.FromOCI: media type x digest x size, interned injectively by the harness, 0 = all-zero), its artifact type and the rest of its payload; changes name non-zero descriptors (pushWithIndexing/deleteWithIndexing only index the three manifest media types) - hypothesis changes_nonempty / guard of EGet",
         "Merge: in the transition system the delivery of a batch result to its members is one step EComplete; Model/Delivery.v models the real hand-over (close of the buffered-1 status channel / len(items)-1 blocking sends, one receive per waiter, late receivers after the swap) and C14_delivery_refines_complete proves that every maximal channel-level run has exactly the effect of EComplete; what is NOT proved is the full simulation of the interleaved system (channel steps of one batch interleaved with lock regions of the next batch): it rests on the old status channel being unreachable from the Merge object after the swap; the real channel mechanics are exercised by the M runs under testing/synctest, all schedules of up to 3 (thorough: 5) callers enumerated",
-        "one referrers tag = one copy of the transition system; different tags touch disjoint Pool keys, Merge objects and registry tags (theorem C14_tags_independent is about the product); index manifests of different tags are distinct objects",
-        "registry: a failed HTTP exchange has no effect; DELETE of a manifest by digest also drops tags pointing at it; index manifests are content-addressed (modelled by list equality)",
+        "one referrers tag = one copy of the transition system; different tags touch disjoint Pool keys and Merge objects (C14_tags_independent is about the product, by construction). Index manifests are content-addressed: an index without a single referrer (the empty index, zero descriptors only) can be ONE manifest under several tags; its deletion by another tag's update is the environment event EExtDrop of the per-tag system (the tag is dropped; as a set nothing changes) or a 404 on this tag's own DELETE (EDel fail); both are generated (pre-existing indexes are byte-identical across subjects unless DistinctPre) and replayed by the model",
+        "registry: the theorems assume that a failed index exchange has no effect (EPrepare/EPut/EDel fail leave the registry cell unchanged); the harness also injects a LOST RESPONSE of the index PUT (takes effect, answered 500): then the callers get a plain error although the index changed - allowed by the property (calls that returned another error may or may not be included), judged by the oracle only (manifests of failed calls are uncertain), the projected model line is UNJUDGED; DELETE of a manifest by digest also drops tags pointing at it",
         "Go runtime scheduling / memory model, sync.Mutex, channels, sync/atomic CompareAndSwap, encoding/json and net/http are modelled, not verified; interleavings of the visible events (lock regions, HTTP exchanges) are quantified over",
-        "pingReferrers / Referrers-API detection on the delete path is exercised end-to-end (capability sampled after every exchange) but only SetReferrersCapability's compare-and-swap is modelled",
+        "pingReferrers / Referrers() fallback / checkOCISubjectHeader: only SetReferrersCapability's compare-and-swap is modelled (C14_capability_monotone is about that CAS); 'the detected capability never flips' for the detection paths is sampled end-to-end after every exchange, starting from Unknown, with pings never concurrent (one exchange released at a time) - oracle only",
+        "OUT OF SCOPE (not in the quantifier, not generated): pre-existing index entries that describe a live referrer with another size / media type (same digest: a different key for applyReferrerChanges, so the referrer is listed twice by digest after a push), entries with a wrong artifact type / annotations (an existing key keeps its OLD payload on Add), stale entries of deleted manifests and entries of other subjects: these are indexes no conforming client produces; the quantifier names duplicates and empty entries",
+        "KNOWN FINDING same-manifest-race: 'exactly the live manifests' is not a theorem. The model has a manifest layer (MPut/MDel around the index calls) only to exhibit C14_listing_is_live_refuted; for operations on DIFFERENT manifests (or non-overlapping operations on one manifest) the clause is judged by the oracle (registry store vs Referrers()), not proved",
     ],
     "level_text": "Coq theorems: applyReferrerChanges (position map, tombstones, hint; transcribed loop by loop) = set semantics over the de-duplicated non-empty old list, NoDup, order of survivors, errNoReferrerUpdate iff nothing changes; for the Merge/Pool/updateReferrersIndex transition system, over every trace (any number of callers, every interleaving of lock regions and HTTP exchanges, any pre-existing index, injected failures of index GET/PUT/DELETE): at most one caller between prepare and complete, Pool entry dropped only when unreferenced, batches linearise (the calls that returned nil or a referrers-index-delete error - exactly those - took effect once, in order, and the index is the fold of their changes), index-delete error only after the update took effect, superseded indexes deleted unless skipped/failed, capability state never flips, tags independent; tied to the code by differential runs of the extracted models (apply/removeEmpty/filter; real Merge+Pool under synctest; end-to-end push/delete through one Repository against a fake tag-schema registry with gate-controlled exchange order, projected per tag onto the transition system) and an independent oracle (live set, Referrers-API registry, dangling indexes, capability samples)",
-    "level_note": "Merge's channel hand-off is one model step (see assumptions); referrers listing by the Referrers API profile is the fake registry's own implementation of the distribution spec (C14_equals_api is about the artifact-type rule); manifests whose push/delete returned a plain error are 'uncertain' for the oracle (may or may not be listed), as the property allows; three defects of oras-go found by this check were repaired in fix: commits (known_findings.d/C14.json)",
+    "level_note": "clause by clause: listing = fold of the accepted changes, each key once, no empty entry, filter (C14_listing + C14_no_lost_update: theorems over every trace); 'exactly the LIVE manifests' = oracle only + known finding same-manifest-race with refuted witness; artifact type / annotations: C14_entries_origin + C14_equals_api (type rule only), rest oracle (decoration, api-mismatch vs the fake's own Referrers API); superseded indexes: C14_gc / C14_gc_clean / C14_gc_count + per-tag dangling count compared with the implementation; capability: CAS theorem + e2e samples; lock-region interleavings of Merge/Pool beyond the exchange-granularity schedules: free-running stress stream (oracle only) and the unproved simulation gap of Delivery; Merge's channel hand-off is one model step (see assumptions); referrers listing by the Referrers API profile is the fake registry's own implementation of the distribution spec (C14_equals_api is about the artifact-type rule); manifests whose push/delete returned a plain error are 'uncertain' for the oracle (may or may not be listed), as the property allows; three defects of oras-go found by this check were repaired in fix: commits (known_findings.d/C14.json)",
     "technique": "machine-checked proof in Coq (invariants over all traces of a transition system; refinement of the position-map algorithm to set semantics) + extracted-model/implementation correspondence under testing/synctest + independent oracle",
     "explanation": "theorems over all interleavings/histories about the model of applyReferrerChanges and of the Merge/Pool/updateReferrersIndex protocol; the extracted model replays the schedules observed on the real code (random + all schedules of small cases) and must predict batches, per-call results and the final index; the oracle compares Referrers()/Predecessors() after quiescence with the generator's live set and with a Referrers-API registry",
 }
